@@ -12,7 +12,8 @@ From SV Require Import Base.Base IR.State IR.NS IR.Ops Hier.Paths Hier.Trace
   Proofs.QueryGlob Proofs.QueryRegex Proofs.QueryFilterA Proofs.QueryFilterB Proofs.QueryFilter
   Proofs.NsInv Proofs.QueryEnumBase Proofs.QueryEnumInst Proofs.QueryEnumPorts Proofs.QueryEnumNetl
   Proofs.QueryEnumPins Proofs.QueryEnumDefs Proofs.QueryEnumLibs Proofs.QueryEnumCables Proofs.QueryEnumFull Proofs.QueryEnumEx
-  Proofs.QueryEnumTerm Proofs.QueryEnumTerm2 Proofs.QueryEnumWires Proofs.QueryEnumWiresSpec Proofs.QueryEnumWiresAll.
+  Proofs.QueryEnumTerm Proofs.QueryEnumTerm2 Proofs.QueryEnumWires Proofs.QueryEnumWiresSpec Proofs.QueryEnumWiresAll
+  Proofs.QueryEnumCablesAll Proofs.QueryEnumAllFull.
 Import ListNotations.
 Local Open Scope string_scope.
 Local Open Scope list_scope.
@@ -179,6 +180,24 @@ Example C13_hier_example :
   run_hier true false (fun e => match e with 0 => s2l "u0" | 1 => s2l "u0/c" | _ => s2l "u1" end)
            [0; 1; 2] [2] [s2l "u0"; s2l "u*"] = [0; 1].
 Proof. exact x_hier. Qed.
+
+(* the filter law of the five hierarchical queries, for every kind of root and every selection (since
+   the repair of finding C13-K6 nothing is yielded before the patterns are looked at): the result for
+   a pattern = the unfiltered result (refs, the references the function finds; their enumeration is
+   the hier engine's) restricted to the references whose hierarchical name matches; no duplicates.
+   Tied on every run: the stage-level request "H" evaluates run_hier on the implementation's own
+   unfiltered result and compares with the implementation's filtered result, for roots of every kind. *)
+Theorem C13_hier_filters_unfiltered : forall ic ir hname refs pats, NoDup refs ->
+  NoDup (run_hier ic ir hname refs [] pats) /\
+  forall e, In e (run_hier ic ir hname refs [] pats) <->
+            In e (run_hier true false hname refs [] star_pat) /\ existsb (fun p => matches_b ic ir p (hname e)) pats = true.
+Proof. exact hier_filters_unfiltered. Qed.
+Print Assumptions C13_hier_filters_unfiltered.
+
+Theorem C13_hier_unfiltered : forall hname refs, NoDup refs ->
+  forall e, In e (run_hier true false hname refs [] star_pat) <-> In e refs.
+Proof. exact hier_unfiltered. Qed.
+Print Assumptions C13_hier_unfiltered.
 
 (* ============================================================================================ *)
 (* The whole query functions: candidate enumeration per kind of root object (Query/Enum.v) against
@@ -508,7 +527,7 @@ Print Assumptions C13_get_pins.
 Example C13_get_pins_example : query_pins ex (fun _ => true) 100 [IE 9] false = WOk [POut 10 4; POut 14 7].
 Proof. exact ex_pins_wire_outside. Qed.
 
-(* ---- get_cables: selections INSIDE, OUTSIDE, BOTH - every kind of root, recursive or not ---- *)
+(* ---- get_cables: selections INSIDE, OUTSIDE, BOTH - every kind of root, recursive or not (ALL: below) ---- *)
 Theorem C13_get_cables_candidates : forall s, QWF s -> forall rec x fuel root ps os,
   sel_all x = false -> cands_cables s fuel [root] rec x = WOk (ps, os) ->
   (forall e, (exists p, In p ps /\ In e (kids s RCables p)) <-> reachA_cables s x root e) /\
@@ -525,6 +544,49 @@ Theorem C13_get_cables : forall s, QWF s -> forall o fuel root rec x pats res,
     (sel_match (q_case o) (q_re o) (key_of s (q_key o)) pats e = true /\ q_cb o e = true).
 Proof. exact query_cables_spec. Qed.
 Print Assumptions C13_get_cables.
+
+(* ---- get_cables, selection ALL, every kind of root, recursive or not: the walk across hierarchy
+   boundaries. Specification (Proofs/QueryEnumCablesAll.v; declarative, no loop):
+     lead_defs s root d     the definitions the root stands for (their cables: first stage);
+     cables_all s root c    c is the cable of a wire in reach_wire_all s root (the closure under wire_adj -
+                            a wire on either side, at any level, of a pin of a searched wire - from the
+                            wires at the pins the root leads to, lead_pin), or a cable of the definition
+                            instantiated by an instance the root leads to (lead_insts). ---- *)
+Theorem C13_get_cables_all_candidates : forall s, QWF s -> forall rec fuel root ps os,
+  cands_cables s fuel [root] rec SAll = WOk (ps, os) ->
+  (forall d, In d ps <-> lead_defs s root d) /\ NoDup os /\ forall c, In c os <-> cables_all s root c.
+Proof.
+  exact (fun s W rec fuel root ps os E =>
+           conj (cands_cables_all_parents s W rec fuel root ps os E) (cands_cables_all_exact s W rec fuel root ps os E)).
+Qed.
+Print Assumptions C13_get_cables_all_candidates.
+
+Theorem C13_get_cables_all : forall s, QWF s -> forall o fuel root rec pats res,
+  LookOK s (q_reg o) (q_key o) RCables -> ~ In [] pats ->
+  query_cables s o fuel [root] rec SAll pats = WOk res ->
+  NoDup res /\
+  forall e, In e res <->
+    ((exists d, lead_defs s root d /\ par s RCables e = Some d) \/ cables_all s root e) /\
+    (sel_match (q_case o) (q_re o) (key_of s (q_key o)) pats e = true /\ q_cb o e = true).
+Proof. exact query_cables_all_spec. Qed.
+Print Assumptions C13_get_cables_all.
+
+(* the wires searched = the final mark set of the loop = the closure *)
+Theorem C13_get_cables_all_searched_wires : forall s, QWF s -> forall rec fuel root st',
+  wl (acts_cables s rec SAll) (bad_cables s SAll) fuel [root] (mkW [] []) = WOk st' ->
+  forall w, In w (w_marks st') <-> reach_wire_all s root w.
+Proof. exact searched_wires_all_final. Qed.
+Print Assumptions C13_get_cables_all_searched_wires.
+
+Theorem C13_reach_wire_all_closure : forall s root w,
+  reach_wire_all s root w <-> exists p, lead_pin s root p /\ closure_of s [p] w.
+Proof. exact reach_wire_all_closure. Qed.
+Print Assumptions C13_reach_wire_all_closure.
+
+Example C13_get_cables_all_example :
+  cands_cables exa 100 [IE 21] false SBoth = WOk ([], [17; 19]) /\
+  cands_cables exa 100 [IE 21] false SAll = WOk ([], [17; 19; 8]).
+Proof. split; [exact exa_cables_both|exact exa_cables_all]. Qed.
 
 (* ---- get_cables: the clauses that do not depend on the enumeration, for any collection of roots,
         every selection (INSIDE, OUTSIDE, BOTH, ALL) and recursive setting ---- *)
